@@ -11,9 +11,9 @@
 (* that the TLC workers share them.                                         *)
 EXTENDS Select, TLC, Json
 CONSTANTS MaxEnt,        \* entities per document, the feature included
-          Profiles,      \* set of gap profiles: sequences of MaxEnt + 1 numbers
+          Profiles,      \* gap profiles per number of entities: [2..MaxEnt -> set of sequences of MaxEnt + 1 numbers]
           STags, OTags,  \* tag choices of scenarios / outlines
-          MaxTagged,     \* at most that many tagged entities per document
+          MaxTagged,     \* at most that many tagged entities per document: [2..MaxEnt -> Nat]
           MaxList,       \* lines per list file
           ListPool,      \* list line pool
           Texts          \* branch texts for --name patterns
@@ -38,7 +38,7 @@ Choices(ks, prof, i) ==    \* items for position i + 1 (kind ks[i])
 RECURSIVE Ext(_,_,_)
 Ext(ks, prof, i) == IF i = 0 THEN {<<Item("feature", prof[1], BodyOf(prof, 1, "feature"), "none", FALSE)>>}
                     ELSE {Append(p, it) : p \in Ext(ks, prof, i - 1), it \in Choices(ks, prof, i)}
-LayoutsOf(ks, prof) == {x \in Ext(ks, prof, Len(ks)) : Cardinality({i \in DOMAIN x : x[i].tag # "none"}) <= MaxTagged}
+LayoutsOf(ks, prof) == {x \in Ext(ks, prof, Len(ks)) : Cardinality({i \in DOMAIN x : x[i].tag # "none"}) <= MaxTagged[Len(x)]}
 
 \* ---------------------------------------------------------------- list files, name options
 ListCases == UNION {[1..n -> ListPool] : n \in 1..MaxList}
@@ -50,7 +50,7 @@ NameCases == {<<(<<b>>)>> : b \in Branches} \cup {<<(<<a, b>>)>> : a \in Branche
 VARIABLES ph, ks, prof, items, lst, here, pats
 vars == <<ph, ks, prof, items, lst, here, pats>>
 Init == ph = "start" /\ ks = <<>> /\ prof = <<>> /\ items = <<>> /\ lst = <<>> /\ here = "dot" /\ pats = <<>>
-Next == \/ /\ ph = "start" /\ ph' = "bucket" /\ ks' \in KindSeqs /\ prof' \in Profiles
+Next == \/ /\ ph = "start" /\ ph' = "bucket" /\ ks' \in KindSeqs /\ prof' \in Profiles[Len(ks') + 1]
            /\ UNCHANGED <<items, lst, here, pats>>
         \/ /\ ph = "bucket" /\ ph' = "layout" /\ items' \in LayoutsOf(ks, prof)
            /\ UNCHANGED <<ks, prof, lst, here, pats>>
@@ -87,9 +87,9 @@ ZeroOn(E, last) ==
                                 /\ Build(AddLocation(Col1(0), Loc(1, a)), E) = {}
 ZeroSelectsAll == OnLayout(ZeroOn(Table(items).E, Table(items).c))
 
-\* representative lines: line 0, every entity's first line, the line before and after it, the last line + 3
+\* representative lines: line 0, every entity's first line, the line after it, the last line + 3
 \* (BisectIsNearest establishes for EVERY line that it behaves like its nearest entity's first line)
-RepLines(E, last) == {l \in LinesTo(last) : l = 0 \/ l = last + 3 \/ \E i \in DOMAIN E : l + 1 = E[i].line \/ l = E[i].line \/ l = E[i].line + 1}
+RepLines(E, last) == {l \in LinesTo(last) : l = 0 \/ l = last + 3 \/ \E i \in DOMAIN E : l = E[i].line \/ l = E[i].line + 1}
 \* every multiset {a <= b <= c} of 1..3 representative lines: what build_feature skips = everything outside the
 \* union of the definitional selections, minus the exempt
 UnionOn(E, last) ==
@@ -163,9 +163,14 @@ Emit == /\ OnLayout(PrintT(<<"CASE", ToJson([kind |-> "layout", items |-> items,
 \* ---------------------------------------------------------------- constant definitions for the cfg files
 TagsAll == {"none", "setup", "teardown"}
 TagsTwo == {"none", "setup"}
-ProfQuick == { <<0,0,0,0,0,0>>, <<1,1,1,1,1,1>>, <<0,1,0,2,0,1>>, <<2,0,1,0,2,0>> }
-ProfThorough == { <<0,0,0,0,0,0,0,0>>, <<1,1,1,1,1,1,1,1>>, <<0,1,0,2,0,1,0,2>>, <<2,0,1,0,2,0,1,0>>,
-                  <<1,0,0,1,2,0,0,1>>, <<0,2,1,0,0,2,1,0>> }
+PQ == { <<0,0,0,0,0,0>>, <<1,1,1,1,1,1>>, <<0,1,0,2,0,1>>, <<2,0,1,0,2,0>> }
+ProfQuick == [n \in 2..5 |-> PQ]
+TaggedQuick == [n \in 2..5 |-> 1]
+PT == << <<0,0,0,0,0,0,0,0>>, <<1,0,0,1,2,0,0,1>>, <<0,1,0,2,0,1,0,2>>, <<2,0,1,0,2,0,1,0>>,
+         <<1,1,1,1,1,1,1,1>>, <<0,2,1,0,0,2,1,0>> >>
+\* all six profiles up to 5 entities, three for 6, two for 7
+ProfThorough == [n \in 2..7 |-> {PT[k] : k \in 1..(IF n <= 5 THEN 6 ELSE IF n = 6 THEN 3 ELSE 2)}]
+TaggedThorough == [n \in 2..7 |-> IF n <= 5 THEN 2 ELSE 1]
 LEntry(f, hasline, line, indent, abs, trail) ==
    [k |-> "entry", f |-> f, hasline |-> hasline, line |-> line, indent |-> indent, abs |-> abs, trail |-> trail]
 LComment == [k |-> "comment", f |-> 0, hasline |-> FALSE, line |-> 0, indent |-> 0, abs |-> FALSE, trail |-> 0]
